@@ -2,7 +2,7 @@
 (coq/Gen/FactsC07.v), regenerated from the source on every run (`ast` only, fail-closed).
 
 For each of Stream.send_data, EventsProcessor.process_window_updated,
-EventsProcessor.process_remote_settings_changed, Connection.pause_writing / resume_writing and
+EventsProcessor.process_remote_settings_changed, Connection.pause_writing / resume_writing / flush and
 H2Protocol.pause_writing / resume_writing the translator emits the sequence, in evaluation order,
 of the things the model Model/FlowSend.v depends on:
 
@@ -27,6 +27,7 @@ TARGETS = [
     ('process_remote_settings_changed', 'EventsProcessor', 'process_remote_settings_changed'),
     ('connection_pause_writing', 'Connection', 'pause_writing'),
     ('connection_resume_writing', 'Connection', 'resume_writing'),
+    ('connection_flush', 'Connection', 'flush'),
     ('protocol_pause_writing', 'H2Protocol', 'pause_writing'),
     ('protocol_resume_writing', 'H2Protocol', 'resume_writing'),
 ]
